@@ -10,7 +10,7 @@ GEN = (" Second tie (regenerated on every run): translate/py2coq.py translates t
        "and coq/Gen/GenP_<group>.v (GenOptP.v, GenHdrP.v) prove the generated definitions equal to the hand-written models "
        "for all inputs, so for these functions the theorems are re-checked against what the code says now; a property only depends on its own groups.")
 GENIMP = (" Second tie (regenerated on every run): translate/imp2coq.py translates the five helpers of pyp0f/impersonate/tcp.py (_impersonate_ip, _impersonate_options, "
-          "_impersonate_window, _impersonate_tcp, _impersonate_payload) from /repo's CURRENT source into the random-tape monad, draws in the source's evaluation order; "
+          "_impersonate_window, _impersonate_tcp, _impersonate_payload) and of impersonate() itself (which signature is used, the IP version check, the order of the three layers) from /repo's CURRENT source into the random-tape monad, draws in the source's evaluation order; "
           "coq/Gen/GenImpP.v proves them equal to the hand-written impersonation model for every tape, and coq/Gen/GenImpC.v restates the C05/C14 theorems for the "
           "translated code on parsed signatures.")
 GENSIG = (" Further tie (regenerated on every run): translate/sig2coq.py translates parse/utils.py, wildcard.py, signatures/tcp.py (TCPSignature.parse and its field "
